@@ -124,7 +124,7 @@ func runC17(h *H) {
 				if err != nil {
 					panic(err)
 				}
-				c.SetDeadline(time.Now().Add(4 * time.Second))
+				c.SetDeadline(time.Now().Add(15 * time.Second))
 				br := bufio.NewReader(c)
 				br.ReadString('\n')
 				stub := ts.lastSession()
@@ -173,7 +173,7 @@ func runC17(h *H) {
 				if err != nil {
 					panic(err)
 				}
-				c.SetDeadline(time.Now().Add(5 * time.Second))
+				c.SetDeadline(time.Now().Add(20 * time.Second))
 				br := bufio.NewReader(c)
 				br.ReadString('\n')
 				stub := ts.lastSession()
